@@ -16,6 +16,9 @@ use crate::chunker::rabin::verif_harness::FragReader;
 #[kani::proof]
 #[kani::unwind(12)]
 #[kani::stub(std::backtrace::Backtrace::capture, crate::error::verif_harness::stub_backtrace_capture)]
+#[kani::stub(crate::error::RusticError::new, crate::error::verif_harness::stub_rustic_new)]
+#[kani::stub(crate::error::RusticError::attach_context, crate::error::verif_harness::stub_attach_context)]
+#[kani::stub(crate::error::RusticError::attach_source, crate::error::verif_harness::stub_attach_source)]
 pub(crate) fn c06_fixed_size_partition() {
     const N: usize = 6;
     let size: usize = kani::any();
